@@ -814,16 +814,26 @@ main(int argc, char **argv)
 			explore_seq("init-c0", &SQ[p][0], 5, 4, 0.35);
 		}
 	} else {
-		for (int p = 0; p < 2; p++) {
-			explore_seq("sat-c0", &SQ[p][2], 5, 4, 0.05);
-			explore_seq("sat-c1", &SQ[p][3], 5, 4, 0.05);
-			explore_seq("third-c0", &SQ[p][4], 5, 4, 0.05);
+		// each run gets its weight's share of the time that is still left
+		// (so what earlier runs did not use carries over)
+		static const struct {
+			const char *name;
+			int         proto, idx, dmax, dmin;
+			double      w;
+		} PLAN[] = { { "sat-c0", 0, 2, 5, 4, 1 }, { "sat-c1", 0, 3, 5, 4, 1 },
+			{ "third-c0", 0, 4, 5, 4, 1 }, { "sat-c0", 1, 2, 5, 4, 1 },
+			{ "sat-c1", 1, 3, 5, 4, 1 }, { "third-c0", 1, 4, 5, 4, 1 },
+			{ "init-c1", 0, 1, 6, 5, 3 }, { "init-c0", 0, 0, 6, 5, 3 },
+			{ "init-c1", 1, 1, 6, 5, 3 }, { "init-c0", 1, 0, 7, 5, 6 } };
+		double wrem = 0;
+		for (int i = 0; i < 10; i++)
+			wrem += PLAN[i].w;
+		for (int i = 0; i < 10; i++) {
+			double share = PLAN[i].w / wrem * (g_cap - used()) / g_cap;
+			explore_seq(PLAN[i].name, &SQ[PLAN[i].proto][PLAN[i].idx],
+			    PLAN[i].dmax, PLAN[i].dmin, share);
+			wrem -= PLAN[i].w;
 		}
-		explore_seq("init-c1", &SQ[0][1], 6, 5, 0.12);
-		explore_seq("init-c0", &SQ[0][0], 6, 5, 0.12);
-		explore_seq("init-c1", &SQ[1][1], 6, 5, 0.12);
-		// the deepest run gets what is left
-		explore_seq("init-c0", &SQ[1][0], 7, 5, (g_cap - used()) / g_cap * 0.9);
 	}
 	vx_note("alphabet",
 	    "%d letters: sendA sendB recvA recvB (non-blocking, tagged) third (C "
